@@ -16,20 +16,20 @@ def main():
     try:
         dst = os.path.join(tmp, "repo")
         subprocess.run(["rsync", "-a", "--exclude", ".git", "--exclude", "_out", a.repo + "/", dst + "/"], check=True)
-        r = subprocess.run(["patch", "-p1", "-s", "-i", os.path.abspath(a.patch)], cwd=dst, capture_output=True, text=True)
+        r = subprocess.run(["patch", "-p1", "-s", "-i", os.path.abspath(a.patch)], cwd=dst, capture_output=True, text=True, errors="replace")
         if r.returncode != 0:
             print("PATCH DOES NOT APPLY:", r.stdout, r.stderr)
             return 2
         env = dict(os.environ, GOFLAGS="-mod=mod -trimpath", GOPROXY="off", GOSUMDB="off", GOTOOLCHAIN="local")
         env.pop("GOWORK", None)
-        b = subprocess.run(["go", "build", "./..."], cwd=dst, env=env, capture_output=True, text=True)
+        b = subprocess.run(["go", "build", "./..."], cwd=dst, env=env, capture_output=True, text=True, errors="replace")
         if b.returncode != 0:
             print("DOES NOT COMPILE:", b.stderr[:500])
             return 2
         fired = set()
         lines = []
         for prop in (a.props.split(",") if a.props != "all" else ["all"]):
-            r = subprocess.run([os.path.join(HERE, "bin", "escalint"), "check", "-prop", prop, "-repo", dst, "-verif", HERE, "-n"], capture_output=True, text=True, env=env)
+            r = subprocess.run([os.path.join(HERE, "bin", "escalint"), "check", "-prop", prop, "-repo", dst, "-verif", HERE, "-n"], capture_output=True, text=True, errors="replace", env=env)
             for l in r.stdout.splitlines():
                 if l.startswith("VIOLATION"):
                     fired.add(l.split("property=")[1].split()[0])
